@@ -158,7 +158,10 @@ Section FieldType.
             if existsb (fun o => match o with None => true | Some _ => false end) ics
             then Err "AttributeError: inline fragment without type condition"
             else
-              let conds := flat_map (fun o => match o with Some c => [c] | None => [] end) ics ++ fos in
+              (* /repo 568dfd8: a condition naming an interface which tn itself implements is not a variant *)
+              let own := match lookup_type S tn with Some (DInterface ifs _) => ifs | _ => [] end in
+              let conds := filter (fun c => negb (mem c own))
+                                  (flat_map (fun o => match o with Some c => [c] | None => [] end) ics ++ fos) in
               let names := tn :: sorted_set conds in
               Ok (opt_if nullable (AUnion (map (fun t => AClass (class_name +++ t)) names)),
                   {| x_related := map (fun t => {| r_class := class_name +++ t; r_type := t |}) names;
@@ -225,7 +228,8 @@ Definition inline_root_type (S : schema) (tcond root : string) : option string :
   match lookup_type S root with
   | None => None
   | Some d =>
-      if (match d with DObject ifs _ => mem tcond ifs | _ => false end) then Some tcond
+      (* /repo 568dfd8: an interface's own interfaces count too *)
+      if (match d with DObject ifs _ | DInterface ifs _ => mem tcond ifs | _ => false end) then Some tcond
       else if String.eqb tcond root then Some root else None
   end.
 
